@@ -91,21 +91,72 @@ theorem expireSlot_pers {sl : Slot} {p' : PObj} (h : (expireSlot sl).pers = some
     simp only [hp, Option.map_some, Option.some.injEq] at h
     exact ⟨p, rfl, by rw [← h]; rfl⟩
 
-/-- all slots of session `s` rolled back; clock / txn may change -/
-theorem quiet_rollbackAll (st : St) (s : Nat) (clock : Nat) (txn : Nat → Bool) :
+/-- a slot transformation under which every persistent object descends from the one that
+    was there: expired, or same version and stamp -/
+def Descends (f : Slot → Slot) : Prop :=
+  ∀ sl p', (f sl).pers = some p' →
+    ∃ p, sl.pers = some p ∧ (p'.ver = none ∨ (p'.ver = p.ver ∧ p'.seen = p.seen))
+
+theorem descends_rollbackSlot : Descends rollbackSlot := by
+  intro sl p' h
+  obtain ⟨p, h1, h2⟩ := rollbackSlot_pers h
+  exact ⟨p, h1, Or.inl h2⟩
+
+theorem descends_expireSlot : Descends expireSlot := by
+  intro sl p' h
+  obtain ⟨p, h1, h2⟩ := expireSlot_pers h
+  exact ⟨p, h1, Or.inl h2⟩
+
+theorem spRollbackObj_descends (p : PObj) :
+    (spRollbackObj p).ver = none ∨ ((spRollbackObj p).ver = p.ver ∧ (spRollbackObj p).seen = p.seen) := by
+  unfold spRollbackObj
+  split
+  · exact Or.inl rfl
+  · exact Or.inr ⟨rfl, rfl⟩
+
+theorem descends_spRollbackSlot : Descends spRollbackSlot := by
+  intro sl p' h
+  unfold spRollbackSlot at h
+  cases hp : sl.pers with
+  | none => simp [hp] at h
+  | some p =>
+    simp only [hp, Option.map_some, Option.some.injEq] at h
+    exact ⟨p, rfl, by rw [← h]; exact spRollbackObj_descends p⟩
+
+theorem descends_failSlot (insp eoc : Bool) : Descends (failSlot insp eoc) := by
+  intro sl p' h
+  unfold failSlot at h
+  split at h
+  · split at h
+    · obtain ⟨p1, h1, h2⟩ := expireSlot_pers h
+      obtain ⟨p, h3, _⟩ := descends_spRollbackSlot sl p1 h1
+      exact ⟨p, h3, Or.inl h2⟩
+    · exact descends_spRollbackSlot sl p' h
+  · exact descends_rollbackSlot sl p' h
+
+/-- all slots of session `s` transformed by a descending map; clock / txn / sp may change -/
+theorem quiet_mapAll (st : St) (s : Nat) (f : Slot → Slot) (hf : Descends f)
+    (clock : Nat) (txn sp : Nat → Bool) :
     Quiet st { st with clock := clock,
-                       sess := updSess st.sess s (fun k => rollbackSlot (st.sess s k)),
-                       txn := txn } := by
+                       sess := updSess st.sess s (fun k => f (st.sess s k)),
+                       txn := txn, sp := sp } := by
   refine ⟨rfl, rfl, rfl, rfl, ?_⟩
   intro s' k' p' hp
   simp only [updSess] at hp
   by_cases hs : s' = s
   · subst hs
     simp only [if_true] at hp
-    obtain ⟨p, h1, h2⟩ := rollbackSlot_pers hp
-    exact Or.inl ⟨p, h1, Or.inl h2⟩
+    obtain ⟨p, h1, h2⟩ := hf _ _ hp
+    exact Or.inl ⟨p, h1, h2⟩
   · simp only [if_neg hs] at hp
     exact origin_same hp
+
+/-- all slots of session `s` rolled back; clock / txn / sp may change -/
+theorem quiet_rollbackAll (st : St) (s : Nat) (clock : Nat) (txn sp : Nat → Bool) :
+    Quiet st { st with clock := clock,
+                       sess := updSess st.sess s (fun k => rollbackSlot (st.sess s k)),
+                       txn := txn, sp := sp } :=
+  quiet_mapAll st s rollbackSlot descends_rollbackSlot clock txn sp
 
 theorem quiet_begin (st : St) (s : Nat) : Quiet st (begin st s) :=
   ⟨rfl, rfl, rfl, rfl, fun _ _ _ h => origin_same h⟩
@@ -113,7 +164,7 @@ theorem quiet_begin (st : St) (s : Nat) : Quiet st (begin st s) :=
 theorem quiet_doRollback (st : St) (s : Nat) : Quiet st (doRollback st s) := by
   unfold doRollback
   split
-  · exact quiet_rollbackAll st s st.clock _
+  · exact quiet_rollbackAll st s st.clock _ _
   · exact Quiet.rfl' st
 
 theorem loadObj_ver (old : Option PObj) (r : Row) :
@@ -218,7 +269,7 @@ theorem step_quiet (c : Cfg) (st : St) (op : Op)
     split
     · rename_i ho
       simp [ho] at h'
-    · exact quiet_rollbackAll st s _ _
+    · exact quiet_mapAll st s _ (descends_failSlot _ _) _ _ _
   | tryflush s =>
     simp only [step, doFlush]
     split
@@ -235,12 +286,23 @@ theorem step_quiet (c : Cfg) (st : St) (op : Op)
           exact Or.inl ⟨p, h1, Or.inl h2⟩
         · simp only [if_neg hs] at hp
           exact origin_same hp
-      · exact quiet_rollbackAll st s _ _
+      · exact quiet_mapAll st s _ (descends_failSlot _ _) _ _ _
   | rollback s =>
     simp only [step]
     exact quiet_doRollback st s
+  | nested s =>
+    simp only [step]
+    split
+    · exact Quiet.rfl' st
+    · exact ⟨rfl, rfl, rfl, rfl, fun _ _ _ h => origin_same h⟩
 
 /-! ### a successful flush, one primary key at a time -/
+
+/-- one UPDATE statement per versioned record (the regenerated flag is down): every object is
+    post-fetched from its own parameters -/
+theorem batchFix_eq (hflag : versionedUpdateExecutemany = false) (g : Gen) (clock n : Nat)
+    (se : Sess) (db : DB) (k : Nat) (sl : Slot) : batchFix g clock n se db k sl = sl := by
+  simp [batchFix, hflag]
 
 theorem anyPk_false {n : Nat} {f : Nat → Bool} (h : anyPk n f = false) {k : Nat} (hk : k < n) :
     f k = false := by
